@@ -3,6 +3,7 @@ import AcraModel.Censor.Session
 import AcraModel.Censor.Match
 import AcraModel.Censor.MatchGeneralise
 import AcraModel.Censor.MatchSound
+import AcraModel.Censor.MatchIdent
 /-!
 # C05 — a statement rejected by the SQL firewall never reaches the database
 
@@ -27,6 +28,13 @@ theorem fact_hq_loop :
 
 /-- `HandleQuery`'s prologue: inactive censor returns nil; a syntax error is returned unless `ignoreParseError`. -/
 theorem fact_hq_prologue : hqInactiveGuard = true ∧ hqParseError = "ignore:continue;else:return err" := by decide
+
+/-- **One ordered loop.** `HandleQuery` walks `acraCensor.handlers` in exactly ONE loop, a `for _, handler := range` (front to
+back = configuration order), and nothing outside that loop – in particular no earlier pass over the handlers – looks at
+the kind of a handler: each handler is consulted at its own position (`runChain` is that loop). A separate first pass
+over one handler kind (e.g. all `query_ignore` handlers before the deny/allow rules) makes this fact fail. -/
+theorem fact_hq_single_ordered_loop :
+    hqHandlerLoops = 1 ∧ hqLoopOrder = ["range:_,handler"] ∧ hqKindTestsOutsideLoop = [] := by decide
 
 /-- Allow handler: unparsed ⇒ continue; queries, then tables (second component: all tables whitelisted), then
 patterns; a hit stops with "allow". -/
@@ -68,6 +76,13 @@ with the *same* part of the pattern and stops with false only when they differ. 
 for `handleInsertStatement` (`return false`), `areEqualIntervalExpr`, `areEqualConvertType` (inverted tests) and
 `areEqualCaseExpr` (`query.Else` against `pattern.Expr`).) -/
 theorem fact_comparators_ok : comparators.all Match.comparatorOk = true := by decide
+
+/-- **Every comparator compares the pattern with the query.** For every comparison of every field-by-field comparator
+and every plain case of every type switch of the current `matching_logic.go`, the two operands are `(query.X, pattern.X)`:
+the *same* selector `X` applied to the two *different* trees – never `(query.X, query.X)`, `(pattern.X, pattern.X)` or
+`(query.X, pattern.Y)`. (`Match.operandPairs` lists the pairs.) This is what lets the lock-step walk of
+`match_sound_on_identifiers` speak about "the same position" of statement and pattern. -/
+theorem fact_comparators_compare_pattern_with_query : Match.tablePairsOk = true := by decide
 
 /-- The functions with placeholder logic are exactly the ones the model writes by hand. -/
 theorem fact_irregular :
@@ -353,6 +368,102 @@ theorem match_sound_on_literals_partial (fuel : Nat) :
    fun call esc q p i a h => Match.atom_retTrue_kinds call esc q p i a h,
    fun q p h hv hl => Match.sqlVal_sound fuel q p h hv hl,
    fun q p h hc => Match.colIdent_sound fuel q p h hc⟩
+
+/-- **`match_sound_on_identifiers`.** When a pattern `p` matches a statement `t`, then for every call the matcher makes on
+its way down – `Match.compared t p`, the lock-step walk: each entry is `(fuel, callee, x, y)` with `x` a part of the
+statement and `y` **the same part of the pattern**; the walk stops only below a placeholder escape (`%%SELECT%%`-style
+whole-statement placeholder, `(%%SUBQUERY%%)`, `%%WHERE%%`, a lone `*` select list, nil = nil) –
+
+* every **table identifier** reached (`areEqualTableIdent`: the name *and every qualifier component* of a table name in
+  FROM / INSERT INTO / UPDATE / DELETE / JOIN, of the qualifier of a column name – `table.column`, `schema.table.column` –
+  and of `t.*` / `s.t.*`) is equal in statement and pattern up to ASCII letter case and `CompliantName()`;
+* every **column identifier** reached (`areEqualColIdent`) is `%%COLUMN%%` in the pattern or equal up to letter case.
+
+So a pattern that spells out `app.users` does not match `vault.users`, `users` or `other.users`, and `app.users.id`
+does not match `vault.users.id`. Proved over the regenerated comparator table: it needs
+`fact_comparators_compare_pattern_with_query` (each comparator hands `(query.X, pattern.X)` to its callee) and the
+regenerated body of `areEqualTableIdent`; a comparator comparing `query.Qualifier` with `query.Qualifier` breaks both. -/
+theorem match_sound_on_identifiers (t p : Tree) (h : matchT p t = true) :
+    ∀ e ∈ Match.compared t p,
+      (e.2.1 = "areEqualTableIdent" → Match.identEq e.2.2.1 e.2.2.2 = true)
+      ∧ (e.2.1 = "areEqualColIdent" → Match.isColumnPattern e.2.2.2 = true
+          ∨ lowerBytes (Match.fld e.2.2.1 "val").leafBytes = lowerBytes (Match.fld e.2.2.2 "val").leafBytes) := by
+  intro e he
+  have hs := Match.compared_sound fact_comparators_compare_pattern_with_query h e he
+  obtain ⟨f, fn, x, y⟩ := e
+  simp only at hs ⊢
+  constructor
+  · intro hfn
+    subst hfn
+    rw [Match.opCmp_fn (by decide)] at hs
+    cases f with
+    | zero => simp [Match.evalFn] at hs
+    | succ f => exact Match.tableIdent_sound f x y hs
+  · intro hfn
+    subst hfn
+    rw [Match.opCmp_fn (by decide)] at hs
+    cases f with
+    | zero => simp [Match.evalFn] at hs
+    | succ f =>
+      cases hc : Match.isColumnPattern y with
+      | true => exact Or.inl rfl
+      | false => exact Or.inr (Match.colIdent_sound f x y hs hc)
+
+/-- **`match_sound_on_literals`, in walk form.** Under the same hypothesis every *literal* the walk reaches
+(`areEqualSQLVal`) is `%%VALUE%%` / `%%LIST_OF_VALUES%%` in the pattern or has the same type and the same bytes in the
+statement; every keyword / operator / flag compared with `strings.EqualFold` is equal up to letter case; every part
+compared with `reflect.DeepEqual` / `bytes.Equal` / `!=` is identical. With `match_sound_on_identifiers` this is the
+converse of `match_generalise` for everything the matcher reaches.
+**Still missing** for the closed structural statement (`p` relates to `t` position by position over the *whole* tree):
+that the walk reaches every position of the pattern outside placeholders – i.e. per node kind, the list of fields no
+comparator reads (today: `SQLVal.CastType`, `Limit.Type`, `Insert.Default`, quoting flags, the lone-`*` select list;
+listed in `match_sound_on_literals_partial`) as a regenerated fact. -/
+theorem match_sound_on_literals_reached (t p : Tree) (h : matchT p t = true) :
+    ∀ e ∈ Match.compared t p,
+      (e.2.1 = "areEqualSQLVal" → Match.isValuePattern e.2.2.2 = true ∨ Match.isListOfValuesPattern e.2.2.2 = true
+          ∨ ((Match.fld e.2.2.1 "Type").leafBytes = (Match.fld e.2.2.2 "Type").leafBytes
+              ∧ (Match.fld e.2.2.1 "Val").leafBytes = (Match.fld e.2.2.2 "Val").leafBytes))
+      ∧ (e.2.1 = "strings.EqualFold" → Match.foldEq e.2.2.1 e.2.2.2 = true)
+      ∧ (e.2.1 = "reflect.DeepEqual" ∨ e.2.1 = "bytes.Equal" → e.2.2.1 = e.2.2.2) := by
+  intro e he
+  have hs := Match.compared_sound fact_comparators_compare_pattern_with_query h e he
+  obtain ⟨f, fn, x, y⟩ := e
+  simp only at hs ⊢
+  refine ⟨?_, ?_, ?_⟩
+  · intro hfn
+    subst hfn
+    rw [Match.opCmp_fn (by decide)] at hs
+    cases f with
+    | zero => simp [Match.evalFn] at hs
+    | succ f =>
+      cases hv : Match.isValuePattern y with
+      | true => exact Or.inl rfl
+      | false =>
+        cases hl : Match.isListOfValuesPattern y with
+        | true => exact Or.inr (Or.inl rfl)
+        | false => exact Or.inr (Or.inr (Match.sqlVal_sound f x y hs hv hl))
+  · intro hfn
+    subst hfn
+    simpa [Match.opCmp] using hs
+  · intro hfn
+    have hb : (x == y) = true := by
+      rcases hfn with hfn | hfn <;> subst hfn <;> simpa [Match.opCmp] using hs
+    exact Tree.eq_of_beq x y hb
+
+/-- The seeded shape, decided on concrete trees: the pattern `select name from app.users where id = %%VALUE%%` matches
+`… from app.users where id = 7` and does **not** match the same statement on `vault.users` or on unqualified `users`; the
+lock-step walk of the second pair contains the table identifier that differs. -/
+theorem qualifier_is_compared :
+    let tbl (schema : String) : Tree := .node "AliasedTableExpr"
+      [.node "TableName" [Match.tIdent "users", Match.tIdent schema], .node "Partitions" [], Match.tIdent "", Tree.nil]
+    let stmt (schema : String) (v : Tree) : Tree :=
+      Match.selectOf [Match.aliased (Match.cName "name")] [tbl schema] (Match.whereOf (Match.cmpEq (Match.cName "id") v))
+    let pat := stmt "app" Match.valuePattern
+    let seven := Match.sqlVal "1" (strBytes "7")
+    matchT pat (stmt "app" seven) = true ∧ matchT pat (stmt "vault" seven) = false ∧ matchT pat (stmt "" seven) = false
+    ∧ (Match.compared (stmt "vault" seven) pat).any
+        (fun e => e.2.1 == "areEqualTableIdent" && !Match.identEq e.2.2.1 e.2.2.2) = true := by
+  decide
 
 /-- A literal pattern matches a statement on a *different table*: table identifiers are compared after
 `CompliantName()` (every character that is not a letter, `_`, `@` or a non-leading digit becomes `_`), so the pattern
